@@ -213,6 +213,8 @@ pub fn traversal_space(tier: Tier, layouts: Lay) -> DocSpace {
     s.add_all("headers", gen::docs_for_headers().into_iter().step_by(if q { 7 } else { 1 }).collect(), layouts);
     s.add_all("names", gen::docs_for_names(), layouts);
     s.add_all("sizes", gen::docs_for_sizes(), layouts);
+    s.add_all("foreign-words", gen::docs_for_foreign_words(), if layouts == Lay::Default { Lay::Default } else { Lay::DefMin });
+    s.add_all("known-annotations", gen::docs_for_known_annotations().into_iter().step_by(4).collect(), Lay::Default);
     s
 }
 
